@@ -58,14 +58,17 @@ CONFIGS = {
     ],
     # every worker's forwarder is started by its runner; one of them sets run-level tags
     "2xrun": [
-        [("startTestRun",), ("test", "a1", "addSuccess", None), ("test", "a2", "addFailure", ("x",))],
+        # (a1 changes its tags once more between its outcome and stopTest: local to a1, and too late
+        # to be forwarded)
+        [("startTestRun",), ("test", "a1", "addSuccess", None, ("late",)), ("test", "a2", "addFailure", ("x",))],
         [("startTestRun",), ("gtags", ("g",), ()), ("test", "b1", "addSkip", None), ("gtags", (), ("g",)), ("test", "b2", "addSuccess", None)],
     ],
     # explicit times that repeat: a test whose start and end coincide, a test starting at the very
     # instant its predecessor ended
     "2xsametime": [
         [("test", "e1", "addSuccess", None), ("test", "e2", "addFailure", ("x",))],
-        [("test", "f1", "addSkip", None)],
+        # (g1: the clock is set back inside the test - TestResult.time says it may)
+        [("test", "f1", "addSkip", None), ("test", "g1", "addSkip", None)],
     ],
     "2x1": [
         [("test", "a1", "addSuccess", None)],
@@ -90,6 +93,7 @@ for _i, _tid in enumerate(["a1", "a2", "a3", "b1", "b2", "b3", "c1", "c2"]):
 TEST_TIMES["e1"] = (ts(40), ts(40))
 TEST_TIMES["e2"] = (ts(40), ts(41))
 TEST_TIMES["f1"] = (ts(41), ts(41))
+TEST_TIMES["g1"] = (ts(50), ts(47))
 
 
 class TargetFault(Exception):
@@ -190,7 +194,8 @@ def execute(config, chooser, faults=True, make_forwarder=None):
         for step in script:
             op = step[0]
             if op == "test":
-                _, tid, outcome, ttags = step
+                _, tid, outcome, ttags = step[:4]
+                late = step[4] if len(step) > 4 else None
                 t = PlaceHolder(tid)
                 call((tid, "time"), tfr.time, TEST_TIMES[tid][0])
                 call((tid, "startTest"), tfr.startTest, t)
@@ -198,6 +203,8 @@ def execute(config, chooser, faults=True, make_forwarder=None):
                     call((tid, "tags"), tfr.tags, set(ttags), set())
                 call((tid, "time"), tfr.time, TEST_TIMES[tid][1])
                 call((tid, outcome), getattr(tfr, outcome), t, **OUTCOME_ARGS[outcome]())
+                if late:
+                    call((tid, "tags"), tfr.tags, set(late), set())
                 call((tid, "stopTest"), tfr.stopTest, t)
             elif op == "gtags":
                 call(("gtags",), tfr.tags, set(step[1]), set(step[2]))
@@ -221,7 +228,7 @@ def execute(config, chooser, faults=True, make_forwarder=None):
 
 def expected_block(script_state, step):
     """Target calls for one test, given the run-level tags buffered so far."""
-    _, tid, outcome, ttags = step
+    _, tid, outcome, ttags = step[:4]
     gnew, ggone = script_state
     block = [("time", (TEST_TIMES[tid][0],)), ("startTest", (tid,)), ("time", (TEST_TIMES[tid][1],))]
     if gnew or ggone:
